@@ -96,6 +96,11 @@ struct PerBuilder {
     trained: u64,
     fit_errors_on_valid: u64,
     panics_on_valid_both_forms: u64,
+    hist_states: u64,
+    hist_transitions: u64,
+    hist_traces: u64,
+    hist_fit_calls: u64,
+    hist_not_comparable: u64,
 }
 
 fn main() {
@@ -107,6 +112,7 @@ fn main() {
          each on a fresh unchecked builder, on a builder that went through check_ref, and on the checked parameters); the grid of a builder is the FULL \
          Cartesian product of its table parameter -> boundary values (far below, just below, -0.0, +0.0 / at bound, just inside, inside, far inside, just below upper, at upper, \
          just above, far above - the entries that exist for the parameter), run for f64 and f32 where the builder is generic; quick = thorough. \
+         states / transitions count the history dimension: per grid point and history the builder states (configured at A, checked / fitted / cloned, moved to B) and the actions between them. \
          non-trivial = the point has a documented verdict (every value documented valid, or at least one documented invalid); points whose only \
          questionable values are documented contradictorily are consistency-only and counted as indeterminate. distinct by construction (product of distinct table entries).",
     );
@@ -115,6 +121,7 @@ fn main() {
     ctx.assume("errors are compared through their Debug strings; the expected error of an unchecked fit is E::from(parameter error) of the operation's own error type");
     ctx.assume("'unchanged by check_ref' = Debug string of the builder before and after (builders without Debug: PLS, random projection - covered only through fit-after-check_ref equality); the count vectoriser's cached compiled regex (a RefCell filled by check_ref) is not a parameter and is masked");
     ctx.assume("fingerprint of a fitted model = its Debug string, or predictions / sorted vocabulary / canonical partition where the model contains a HashMap (naive Bayes, count vectoriser, hierarchical) ; all fits use fixed seeds");
+    ctx.assume("history dimension (explicit-state exploration of the builder value): for every grid point B the builder is ALSO reached through four histories - configured at the valid reference point A then check_ref then the setters of B on the same value; the same with a clone taken after the check; a fit on the unchecked builder at A instead of the check; configured at the invalid reference point A' and rejected first - and check_ref(), check() and the unchecked training calls at B must equal those of the freshly built builder (same error Debug string, same model fingerprint). Constructor-only arguments (k-means / GMM n_clusters, DBSCAN / OPTICS min_points, PLS n_components, FastICA ncomponents) stay those of B; a history whose setter chain cannot reach B's parameter values (setters that cannot unset an Option) is counted as not comparable; builders without Clone (PLS, random projection) have no clone history; the clone / fit / rejected histories run only the first training form");
     ctx.assume("a documented-invalid point that check() accepts is reported and NOT trained on; values flagged skip_ops (solver can only stop at its iteration cap) get the verdict oracles but no training call");
 
     let mut cases: Vec<Case> = Vec::new();
@@ -211,6 +218,11 @@ fn main() {
             e.trained += o.trained;
             e.fit_errors_on_valid += o.fit_errors_on_valid;
             e.panics_on_valid_both_forms += o.panics_on_valid_both_forms;
+            e.hist_states += o.hist_states;
+            e.hist_transitions += o.hist_transitions;
+            e.hist_traces += o.hist_traces;
+            e.hist_fit_calls += o.hist_fit_calls;
+            e.hist_not_comparable += o.hist_not_comparable;
         }
         if !o.notes.is_empty() {
             let mut g = notes.lock().unwrap();
@@ -236,7 +248,9 @@ fn main() {
             k.clone(),
             json!({"points": v.points, "documented_valid": v.valid, "documented_invalid": v.invalid, "two_or_more_invalid_params": v.multi_invalid, "consistency_only": v.consistency_only,
                    "check_accepted": v.accepted, "check_rejected": v.rejected, "fit_calls_compared": v.ops_run, "fit_calls_skipped": v.ops_skipped, "models_trained_on_valid": v.trained,
-                   "data_dependent_fit_errors_on_valid": v.fit_errors_on_valid, "valid_points_where_both_forms_panic": v.panics_on_valid_both_forms}),
+                   "data_dependent_fit_errors_on_valid": v.fit_errors_on_valid, "valid_points_where_both_forms_panic": v.panics_on_valid_both_forms,
+                   "history_dimension": v.hist_traces > 0, "history_states": v.hist_states, "history_transitions": v.hist_transitions, "histories_compared_with_fresh_builder": v.hist_traces,
+                   "history_fit_calls_compared": v.hist_fit_calls, "histories_not_comparable": v.hist_not_comparable}),
         );
         tot.valid += v.valid;
         tot.invalid += v.invalid;
@@ -246,6 +260,11 @@ fn main() {
         tot.trained += v.trained;
         tot.ops_skipped += v.ops_skipped;
         tot.panics_on_valid_both_forms += v.panics_on_valid_both_forms;
+        tot.hist_states += v.hist_states;
+        tot.hist_transitions += v.hist_transitions;
+        tot.hist_traces += v.hist_traces;
+        tot.hist_fit_calls += v.hist_fit_calls;
+        tot.hist_not_comparable += v.hist_not_comparable;
     }
     ctx.extra("per_builder", Value::Object(pb));
     ctx.extra("documented_valid_points", json!(tot.valid));
@@ -256,6 +275,12 @@ fn main() {
     ctx.extra("fit_calls_skipped", json!(tot.ops_skipped));
     ctx.extra("models_trained_on_valid_points", json!(tot.trained));
     ctx.extra("valid_points_where_both_forms_panic", json!(tot.panics_on_valid_both_forms));
+    ctx.add_states(tot.hist_states, tot.hist_transitions, tot.hist_traces);
+    ctx.extra("history_kinds", json!(HISTORIES));
+    ctx.extra("builders_with_history_dimension", json!(per.iter().filter(|(_, v)| v.hist_traces > 0).map(|(k, _)| k.clone()).collect::<Vec<_>>()));
+    ctx.extra("builders_without_history_dimension", json!(per.iter().filter(|(_, v)| v.hist_traces == 0).map(|(k, _)| k.clone()).collect::<Vec<_>>()));
+    ctx.extra("history_fit_calls_compared", json!(tot.hist_fit_calls));
+    ctx.extra("histories_not_comparable", json!(tot.hist_not_comparable));
     let notes = notes.into_inner().unwrap();
     ctx.extra("consistency_only_and_observations", json!(notes.iter().map(|(k, v)| format!("{} (x{})", k, v)).collect::<Vec<_>>()));
     ctx.finish(&replay_value);
